@@ -482,8 +482,8 @@ def gen_network(rng, kind=None, opts=()):
     if rng.random() < 0.5:
         edges = [(y, x) if rng.random() < 0.5 else (x, y) for x, y in edges]
     rng.shuffle(edges)
-    has_cost = rng.random() < 0.5 or "nonpos" in opts
-    has_prob = rng.random() < 0.35
+    has_cost = rng.random() < 0.5 or "nonpos" in opts or "cost" in opts
+    has_prob = rng.random() < 0.35 or "prob" in opts
     cost_mode = rng.choice(["percell", "percell", "free"])
     records = []
     for (x, y) in edges:
@@ -700,14 +700,14 @@ def gen_queries(rng, net, b, heavy=False, nonpos=False):
 MALFORMED_FIELDS = ["", "abc", '"3"', "'3'", "x1", "--1", "-", "."]
 
 
-def gen_malformed(rng):
-    """A valid network text with exactly one malformed element."""
-    head, b = gen_network(rng, kind=rng.choice(["path", "tree", "edge", "cycle"]))
+def gen_malformed(rng, k):
+    """A valid network text with exactly one malformed element of kind k (0..13)."""
+    head, b = gen_network(rng, kind=rng.choice(["path", "tree", "edge", "cycle"]),
+                          opts=("prob",) if k == 7 else ("cost",) if k == 8 else ())
     lines = head[8].split("|")
     has_header = lines[0].startswith("node_1")
     labels = lines[0].split(",") if has_header else ["node_1", "node_2", "geometry"]
     first = 1 if has_header else 0
-    k = rng.randint(0, 13)
     i = rng.randint(first, len(lines) - 1)
     f = lines[i].split(",")
     if k == 0:
@@ -727,7 +727,7 @@ def gen_malformed(rng):
     elif k == 6:
         f = f[:rng.randint(0, len(f) - 1)]            # line cut short
     elif k == 7 and "probability" in labels:
-        f[2] = rng.choice(["-0.5", "-80", "-0.25"] + MALFORMED_FIELDS)
+        f[2] = rng.choice(["-0.5", "-80", "-0.25"]) if rng.random() < 0.6 else rng.choice(MALFORMED_FIELDS)
     elif k == 8 and "cost" in labels:
         f[labels.index("cost")] = rng.choice(MALFORMED_FIELDS)
     elif k == 9:
@@ -763,7 +763,9 @@ CORPUS = [
     "NET 10 0 10 0 1 1 0 1,2,0.5;9.5;1.5;9.5;2.5;9.5;3.5;9.5;4.5;9.5 W:0:0:1:1:1 K:0:0:jump:1:1 D:0:0:j:1:1 K:0:0:jump:3:1 D:0:0:j:2:7 W:0:0:1:0:1 K:0:0:walk:1:1",
     # stated cost 0: walk(0,0,1.0) does not terminate (known finding)
     "NET 10 0 10 0 1 1 0 node_1,node_2,cost,geometry|1,2,0,0.5;9.5;4.5;9.5 W:0:0:1:0:1 W:0:0:0:1:1 E:0:0",
-    # the three networks of tests/test_network.cpp (walk, cost, teleport)
+    # the same node pair twice: the second geometry is dropped (known finding)
+    "NET 10 0 10 0 1 1 0 1,2,0.5;9.5;4.5;9.5|1,2,0.5;9.5;0.5;7.5;4.5;7.5;4.5;9.5 S:1:2 S:2:1 W:0:0:1:0:1",
+    # a network shaped like the one of tests/test_network.cpp (dyadic coordinates)
     "NET 10 0 30 20 1 1 0 1,2,21.5;7.5;22.25;7.25|1,4,21.5;7.5;21.75;8;22.5;8.5|2,8,22.25;7.25;23.25;7.125;24;6.875;24.75;6.75;25.75;6.625;26.5;6.5|8,10,26.5;6.5;26.75;5.75;27.25;4.875;27.5;4.25;27.875;3.5;28.25;2.75 W:2:1:1:0:42 W:2:1:3:0:42 W:2:1:6:1:42 T:2:1:2:42 S:2:8 S:8:2",
 ]
 
@@ -803,7 +805,7 @@ def generate(tier, seed, path):
     for i in range(n_odd):
         add(("odd",))
     for i in range(n_mal):
-        cases.append(" ".join(gen_malformed(rng)))
+        cases.append(" ".join(gen_malformed(rng, i % 14)))
     for i in range(n_par):
         add(("parallel",))
     for i in range(n_nonpos):
